@@ -2504,6 +2504,11 @@ _dbus_connection_block_pending_call (DBusPendingCall *pending)
       complete_pending_call_and_unlock (connection, pending, error_msg);
       if (error_msg != NULL)
         dbus_message_unref (error_msg);
+
+      /* update user code on dispatch status */
+      CONNECTION_LOCK (connection);
+      status = _dbus_connection_get_dispatch_status_unlocked (connection);
+      _dbus_connection_update_dispatch_status_and_unlock (connection, status);
       dbus_pending_call_unref (pending);
       return;
     }
